@@ -589,7 +589,7 @@ TRUSTED = [
     "math.erfc / math.log10 / math.sqrt (libm): Section variables of C13/PhiModel.v with the order properties of the mathematical functions as hypotheses; float rounding of phi is not modelled",
     "engine contract used by the cluster theorems (C13/Net.v): events are delivered in time order, cancelled events are skipped, a timer fires at the time it was created for (proved for the engine under C01)",
 ]
-FILES = ["C13/Model.v", "C13/PhiModel.v", "C13/NodeProofs.v", "C13/PhiProofs.v", "C13/Props.v"]
+FILES = ["C13/Model.v", "C13/PhiModel.v", "C13/Net.v", "C13/NodeProofs.v", "C13/PhiProofs.v", "C13/NetProofs.v", "C13/Props.v"]
 
 
 def _coq_cases_sharded(ctx):
